@@ -29,7 +29,10 @@ Ev == {"AttS1", "AttR2", "AttDup", "Refuse4", "DetS1", "CloseS1", "DropS1", "Clo
        "R6FullPClose",
        \* the handle of an attached link is dropped and, in the same scheduler turn, another link is attached on that session: the session engine
        \* finds the detach of the old link and the allocation of the new one ready together (which it serves first is random)
-       "DropReatt1"}
+       "DropReatt1",
+       \* the application detaches without closing; the peer answers with a closing detach that carries an error: closing is answered with
+       \* closing, for which the endpoint attaches the link once more (the peer answers that attach and the closing detach)
+       "DetS1PClose"}
 ClientOnly == {"AttDup", "Refuse4", "R6FullPClose"}
 \* Focus = "sessions": only the events that begin / end sessions and put traffic on them (channel numbers the peer chooses freely)
 SessionEvents == {"AttS1", "Send1", "AttR2", "In2", "Beg2", "AttS3", "Send3", "End1", "End1err", "PEnd1", "End2", "Beg3", "AttS5", "Send5"}
@@ -41,6 +44,7 @@ Enabled(e) ==
     [] e = "Refuse4" -> ~ended1
     [] e = "R6FullPClose" -> ~ended1 /\ "L6" \notin att
     [] e = "DropReatt1" -> ~ended1 /\ "L1" \in att /\ "L1" \notin pdet /\ \A i \in DOMAIN script : script[i] # "DropReatt1"
+    [] e = "DetS1PClose" -> ~ended1 /\ "L1" \in att /\ "L1" \notin pdet
     [] e \in {"DetS1", "CloseS1", "DropS1", "PDetS1err", "PDetS1nc", "PDetS1idle", "PDetS1close", "PDetS1drop", "PDetS1seenDrop", "Send1", "SendDrop1", "SendDet1"} -> ~ended1 /\ "L1" \in att /\ "L1" \notin pdet
     [] e \in {"CloseR2", "PCloseR2", "In2"} -> ~ended1 /\ "L2" \in att /\ "L2" \notin pdet
     [] e = "Beg2" -> ~s2
@@ -55,7 +59,7 @@ Enabled(e) ==
 Step(e) ==
   /\ Len(script) < Depth /\ Enabled(e) /\ script' = Append(script, e)
   /\ att' = CASE e = "AttS1" -> att \cup {"L1"} [] e = "AttR2" -> att \cup {"L2"} [] e = "AttS3" -> att \cup {"L3"} [] e = "AttS5" -> att \cup {"L5"} [] e = "R6FullPClose" -> att \cup {"L6"}
-              [] e \in {"DetS1", "CloseS1", "DropS1", "DropReatt1", "SendDrop1", "SendDet1", "PDetS1close", "PDetS1drop", "PDetS1seenDrop"} -> att \ {"L1"} [] e = "CloseR2" -> att \ {"L2"}
+              [] e \in {"DetS1", "CloseS1", "DropS1", "DropReatt1", "DetS1PClose", "SendDrop1", "SendDet1", "PDetS1close", "PDetS1drop", "PDetS1seenDrop"} -> att \ {"L1"} [] e = "CloseR2" -> att \ {"L2"}
               [] e \in {"End1", "End1err", "PEnd1", "PEnd1err", "End1PErr", "SendEnd1", "SendQEndErr1", "DropEndErr1", "End1Traffic", "End1errTraffic"} -> att \ {"L1", "L2"} [] e = "End2" -> att \ {"L3"} [] OTHER -> att
   /\ s2' = IF e = "Beg2" THEN TRUE ELSE IF e = "End2" THEN FALSE ELSE s2
   /\ s3' = (s3 \/ e = "Beg3")
@@ -92,6 +96,9 @@ Conc(e, m) ==
     [] e = "DetS1" -> << [e |-> "ADetach", l |-> "L1", closed |-> FALSE], PDet(C1, H(5), FALSE, "") >>
     [] e = "CloseS1" -> << [e |-> "ADetach", l |-> "L1", closed |-> TRUE], PDet(C1, H(5), TRUE, "") >>
     [] e = "DropS1" -> << [e |-> "ADrop", h |-> "l:L1"], PDet(C1, H(5), TRUE, "") >>
+    [] e = "DetS1PClose" -> << [e |-> "ADetach", l |-> "L1", closed |-> FALSE], PDet(C1, H(5), TRUE, "amqp:resource-deleted"),
+                               [e |-> "PFrame", perf |-> "attach", ch |-> C1, needs_prev |-> TRUE, f |-> [name |-> "L1", h |-> H(5), role |-> "r", snd |-> 2, rcv |-> 0]],
+                               PDet(C1, H(5), TRUE, "") >>
     [] e = "DropReatt1" -> << [e |-> "ADrop", h |-> "l:L1", nosettle |-> TRUE], [e |-> "AAttachS", l |-> "L7", s |-> "s1", cfg |-> [snd |-> 2, rcv |-> 0, idc |-> 0]],
                               PDet(C1, H(5), TRUE, ""), [e |-> "PFrame", perf |-> "attach", ch |-> C1, f |-> [name |-> "L7", h |-> H(11), role |-> "r", snd |-> 2, rcv |-> 0]] >>
     [] e = "CloseR2" -> << [e |-> "ADetach", l |-> "L2", closed |-> TRUE], PDet(C1, H(6), TRUE, "") >>
